@@ -244,6 +244,8 @@ class Interp:
                                 nm = strip_generics(o['c']['uneval'])
                 v = ('const', nm, ty)
                 return ('ref', Cell(v)) if ty.startswith('&') else v
+            if ty.startswith('&'):
+                return ('ref', Cell(('opaque', 'const:' + ty)))
             return ('opaque', 'const:' + ty)
         cell = self.place_cell(frame, op['pl'])
         v = cell.v
